@@ -14,11 +14,12 @@ DOC = {
     'rules': {
         'C08.R1': 'partition: retain(g) = g.should_keep(config) || !g.may_drop(config) (truth table of the closure given to Iterator::partition)',
         'C08.R2': 'FileSubGroup::should_keep = any(should_keep(path)); may_drop = all(may_drop(path)); should_keep(path) = any keep-name || any keep-path; may_drop(path) = (no name and no path patterns) || any name || any path',
-        'C08.R3': 'priorities applied in reverse order (iter().rev()) with stable sorts only',
+        'C08.R3': 'priorities applied in reverse order (iter().rev()) with stable sorts only; priorities that are not sorts by a key (top/bottom: reverse / keep the current order) are applied to the report order only - the list is cut after the first of them',
         'C08.R4': 'FileSubGroup::group(files, &config.isolated_roots, !config.match_links)',
         'C08.R5': 'run_dedupe: no_check_size |= transform.is_some(); match_links |= header; rf_over defaulted only when None; isolated_roots defaulted only when empty and the header had --isolate; get_command_config re-bases on header.base_dir',
         'C08.R6': 'for every explicitly typed value_parser: <P as TypedValueParser>::Value == the T of remove_one::<T>/remove_many::<T> for the same argument id',
         'C08.R7': 'GroupConfig::rf_over() does not depend on `transform`',
+        'C08.R9': 'the isolate roots that reach partition - inherited from the header or given on the dedupe command line - are in the canonical form of the reported paths (re-evaluates C06.R6)',
         'C08.R8': 'the top-up to n counts retained sub-groups (re-evaluates C02.R1)',
     },
     'not_decided': 'glob semantics (C16); real timestamps and ties between them',
@@ -31,6 +32,10 @@ def run(ctx):
     r1(ctx)
     r2(ctx)
     r3(ctx)
+    r3b(ctx)
+    from .common import reevaluate
+    from . import c06
+    reevaluate(ctx, 'C08.R9', c06.r6)
     r4(ctx)
     r5(ctx)
     r6(ctx)
@@ -232,6 +237,58 @@ def r3(ctx):
             clash = [x for x in srt if x.bb in hb.reachable(r.bb) or r.bb in hb.reachable(x.bb)]
             ctx.check(not clash, rule, '%s|reverse-with-sort' % k, r.where(), 'reverse() stands alone (no sort of the same slice on its path)',
                       'reverse() is combined with %s on the same path: among replicas with equal keys the order established by the other priorities (and the report order) is inverted, so a different replica is kept' % (clash[0].path.rsplit('::', 1)[-1] if clash else ''))
+
+
+def r3b(ctx):
+    """priorities that are not stable sorts by a key (reverse / keep-as-is: they refer to the report order and leave no ties) are applied to the original order only"""
+    rule = 'C08.R3'
+    lib = ctx.lib
+    sp = ctx.need_body(rule, 'dedupe::sort_by_priority')
+    pt = ctx.need_body(rule, 'dedupe::partition')
+    if sp is None or pt is None:
+        return
+    from ..analysis import variant_arms
+    arms = variant_arms(sp, lib, of_local=2)
+    if not arms:
+        ctx.missing(rule, 'match on Priority in sort_by_priority', sp.where())
+        return
+    sw, amap, other = arms[0]
+    nonsort = set()
+    for v, tgt in amap.items():
+        region = sp.reachable(tgt, avoid=[t for vv, t in amap.items() if t != tgt])
+        srt = [c for x in region for c in [sp.call_at(x)] if c is not None and re.search(r'sort', c.path.rsplit('::', 1)[-1])]
+        if not srt:
+            nonsort.add(v)
+    ctx.note(rule, sp.where(), 'priorities that are not sorts by a key: %s' % sorted(nonsort))
+    if not nonsort:
+        ctx.ok(rule, pt.path + '|order-total-first', pt.where(), 'every priority is a stable sort by a key')
+        return
+    # the closure in partition that recognises exactly these variants, used to cut the list
+    adt = lib.adts.get('config::Priority') or {}
+    names = [v['name'] if isinstance(v, dict) else v for v in adt.get('variants', [])]
+    found = None
+    for cp in lib.closures_of(pt.path):
+        cb = lib.body(cp)
+        for bi, blk in enumerate(cb.blocks):
+            t = blk['term']
+            if t['k'] != 'switch' or blk['cleanup']:
+                continue
+            dd = direct_def(cb, t['op'])
+            if dd[0] == 'stmt' and dd[1]['rv']['k'] == 'disc' and 'Priority' in cb.local_ty(dd[1]['rv']['p'][0]):
+                true_vals = set()
+                for v, tgt in zip(t['vals'], t['tgts']):
+                    for st in cb.blocks[tgt]['stmts']:
+                        if st['p'][0] == 0 and const_bool(st['rv'].get('op') or {}) is True:
+                            true_vals.add(names[v] if v < len(names) else str(v))
+                found = (cp, true_vals)
+    cut = [c for c in pt.calls(r'Iterator>::position$|Iterator::position$|Iterator>::take_while$|Iterator::take_while$')]
+    sp_calls = pt.calls(r'dedupe::sort_by_priority$')
+    ok = bool(found) and found[1] == nonsort and bool(cut) and bool(sp_calls) and any(c in backslice(pt, [sp_calls[0].args[1]]).calls for c in cut)
+    ctx.check(ok, rule, pt.path + '|order-total-first', (sp_calls[0].where() if sp_calls else pt.where()),
+              'the priority list is cut after the first of %s, so these are applied to the files in report order' % sorted(nonsort),
+              'the priorities %s are implemented as reverse()/keep-as-is of the current order, which is the report order only when nothing was applied before: in a chain such as `--priority top '
+              '--priority most-recently-modified` the later priority is applied first and `top` then reverses *its* result (keeps exactly the file that `top` alone drops first); %s' % (
+                  sorted(nonsort), 'the list is not cut at the first of them' if not cut else 'the cut does not test exactly these variants (%s)' % (sorted(found[1]) if found else 'no test')))
 
 
 def r4(ctx):
